@@ -5542,7 +5542,8 @@ class FlowIRConcrete(object):
         try:
             cast(List[str], self._flowir[FlowIR.FieldPlatforms]).append(platform)
             cast(Dict[str, Dict[str, str]], self._flowir[FlowIR.FieldEnvironments])[platform] = {}
-            cast(Dict[str, Dict[str, str]], self._flowir[FlowIR.FieldVariables])[platform] = {}
+            cast(Dict[str, Dict[str, str]], self._flowir[FlowIR.FieldVariables])[platform] = {
+                FlowIR.LabelGlobal: {}, FlowIR.LabelStages: {}}
         except Exception as exc:
             raise experiment.model.errors.FlowIRInconsistency(
                 'Failed to add new platform "%s"' % platform, self._flowir, exc
@@ -6262,6 +6263,10 @@ class FlowIRConcrete(object):
 
         if FlowIR.LabelGlobal not in self._flowir[FlowIR.FieldVariables][platform]:
             self._flowir[FlowIR.FieldVariables][platform][FlowIR.LabelGlobal] = {}
+
+        # VV: the variables of a platform always have the global and the stages scopes (queries expect both)
+        if FlowIR.LabelStages not in self._flowir[FlowIR.FieldVariables][platform]:
+            self._flowir[FlowIR.FieldVariables][platform][FlowIR.LabelStages] = {}
 
         self._flowir[FlowIR.FieldVariables][platform][FlowIR.LabelGlobal][variable] = value
 
